@@ -66,6 +66,7 @@ class EvalSeams:
         self._undo: list = []
         self.reset(None)
         self.total_model_evaluations = 0  # every OptimizationGroup.calculate, ever
+        self.trace_until_history = True  # line faults stop before the history record is appended
         self.on_group_calculate = None  # optional probe callback(parameters)
 
     # -- per optimize() call state ------------------------------------------
@@ -261,7 +262,11 @@ class EvalSeams:
         code = frame.f_code
         if not _is_sut_file(code.co_filename):
             return None
-        if code.co_name == "append" and code.co_filename.endswith("parameter_history.py"):
+        if (
+            self.trace_until_history
+            and code.co_name == "append"
+            and code.co_filename.endswith("parameter_history.py")
+        ):
             # the evaluation is about to be recorded: stop injecting
             sys.settrace(None)
             return None
